@@ -2450,6 +2450,25 @@ func (tc *typechecker) checkPackageSelector(expr *ast.Selector) (*typeInfo, bool
 				fn.Upvars = append(fn.Upvars, upvar)
 			}
 		}
+	} else if ti.Addressable() && !ti.IsNative() {
+		// ti is a variable of a package declared in Scriggo. The function
+		// literals that refer to it have it as an upvar, as for the other
+		// package-level variables, with the name used by the emitter for
+		// the variables of the imported packages.
+		name := ident.Name + "." + expr.Ident
+		for _, fn := range tc.scopes.Functions() {
+			add := true
+			for _, uv := range fn.Upvars {
+				if decl, ok := uv.Declaration.(*ast.Identifier); ok && decl.Name == name {
+					add = false
+					break
+				}
+			}
+			if add {
+				decl := ast.NewIdentifier(expr.Pos(), name)
+				fn.Upvars = append(fn.Upvars, ast.Upvar{Declaration: decl})
+			}
+		}
 	}
 	tc.compilation.typeInfos[expr] = ti
 	tc.scopes.Use(ident.Name)
